@@ -528,6 +528,326 @@ def check_cases(ctx, cases, parallel=False):
         ctx.sample({"idset-program": model_line(ok[0]), "model": mouts[0], "spec": souts[0]})
 
 
+# ------------------------------------------------------------------------------------------------
+# programs over a pool of named sets (results of binary ops fed back as operands on either side)
+
+BINM = {"union": "union", "inter": "intersection", "diff": "difference"}
+UPDM = {"union": "update", "inter": "intersection_update", "diff": "difference_update"}
+ON_KINDS = ["add", "add", "discard", "clear", "invupd", "contains", "contains", "iter", "len", "bool", "first",
+            "last", "before", "after", "invert", "copy"]
+
+
+def gen_reg(rng, U, bias_bits=0.75):
+    r = rng.random()
+    if r < bias_bits * 0.6:
+        nb = rng.choice((0, 0, 0, 1, 1, 2, 3, 5, 9))
+        bs = bytearray(rng.choice((0, 0, 1, 128, 255, rng.randrange(256))) for _ in range(nb))
+        if nb and rng.random() < 0.3:
+            bs[-1] = 0          # an untrimmed array
+        return ("bits", bytes(bs).hex())
+    if r < bias_bits:
+        return ("src", pick_list(rng, U), 1, rng.choice((0, 0, 0, 1, 8, U, U + 9)))
+    return ("sorted", sorted(set(pick_list(rng, U))))
+
+
+def gen_pool_case(rng):
+    U = pick_universe(rng)
+    allbits = rng.random() < 0.6
+    nreg = rng.choice((2, 3, 3, 4, 5))
+    regs = [gen_reg(rng, U, 1.0 if allbits else 0.6) for _ in range(nreg)]
+    ops = []
+    for _ in range(rng.choice((4, 8, 12, 20, 30))):
+        r = rng.random()
+        a, b, dst = rng.randrange(nreg), rng.randrange(nreg), rng.randrange(nreg)
+        if r < 0.35:
+            ops.append(("bin", rng.choice(("union", "union", "inter", "diff", "inter")), dst, a, b,
+                        rng.choice(("m", "o"))))
+        elif r < 0.55:
+            ops.append(("upd", rng.choice(("union", "union", "inter", "diff", "inter")), a, b))
+        elif r < 0.88:
+            ops.append(("on", a, gen_ops(rng, U, 1, kinds=ON_KINDS)[0]))
+        elif r < 0.90:
+            ops.append(("inv", dst, a, rng.choice((0, 1, 8, 9, U, U + 1, 2 * U + 3, rng.randrange(U + 20)))))
+        elif r < 0.93:
+            ops.append(("disk", a, rng.choice((0, 1, 5))))
+        elif r < 0.95:
+            ops.append(("cp", dst, a))
+        else:
+            ops.append(("load", dst, gen_reg(rng, U, 1.0 if allbits else 0.6)))
+    return dict(kind="pool", regs=regs, ops=ops)
+
+
+def mk_reg(reg):
+    from whoosh.idsets import BitSet, SortedIntSet
+    if reg[0] == "bits":
+        return BitSet.from_bytes(bytes.fromhex(reg[1]))
+    if reg[0] == "src":
+        _, l, sized, size = reg
+        return BitSet(list(l), size=size) if size else BitSet(list(l))
+    return SortedIntSet(list(reg[1]))
+
+
+def reg_members(reg):
+    if reg[0] == "bits":
+        bs = bytes.fromhex(reg[1])
+        return [i for i in range(len(bs) * 8) if bs[i >> 3] >> (i & 7) & 1]
+    return list(reg[1])
+
+
+def reg_kind(obj):
+    return "bitset" if hasattr(obj, "bits") else "sorted"
+
+
+def run_pool_case(case):
+    """Worker: one pool program on the real classes -> per op (raw, set-level, class of the receiver,
+    facts about the right-hand operand)."""
+    try:
+        regs = [mk_reg(r) for r in case["regs"]]
+    except Exception as e:  # noqa
+        return dict(case=case, init_exc=_exc(e), obs=[])
+    fresh = [True] * len(regs)      # register still holds a constructor result (never a result of a binary op)
+    obs = []
+    for op in case["ops"]:
+        name = op[0]
+        info = {}
+        kind = None
+        try:
+            if name == "bin":
+                _, o, dst, a, b, form = op
+                x, y = regs[a], regs[b]
+                kind = reg_kind(x)
+                info = _operand_facts(x, y, fresh[b])
+                if form == "o":
+                    res = {"union": lambda: x | y, "inter": lambda: x & y, "diff": lambda: x - y}[o]()
+                else:
+                    res = getattr(x, BINM[o])(y)
+                regs[dst] = res
+                fresh[dst] = False
+                obs.append((_raw(res), fl([v for v in res]), kind, info))
+            elif name == "upd":
+                _, o, a, b = op
+                x, y = regs[a], regs[b]
+                kind = reg_kind(x)
+                info = _operand_facts(x, y, fresh[b])
+                getattr(x, UPDM[o])(y)
+                fresh[a] = False
+                obs.append((_raw(x), fl([v for v in x]), kind, info))
+            elif name == "on":
+                x = regs[op[1]]
+                kind = reg_kind(x)
+                r, s_, _m = apply_real(x, op[2])
+                obs.append((r, s_, kind, info))
+            elif name == "inv":
+                _, dst, a, n = op
+                kind = reg_kind(regs[a])
+                res = regs[a].invert(n)
+                regs[dst] = res
+                obs.append((_raw(res), fl([v for v in res]), kind, info))
+            elif name == "disk":
+                _, a, npre = op
+                x = regs[a]
+                kind = reg_kind(x)
+                if kind != "bitset":
+                    obs.append(("err-index", fl([v for v in x]), kind, info))
+                    continue
+                from whoosh.filedb.filestore import RamStorage
+                from whoosh.idsets import BitSet, OnDiskBitSet
+                st = RamStorage()
+                f = st.create_file("bits")
+                f.write(b"\x07" * npre)
+                count = x.to_disk(f)
+                f.write(b"\x01\x02")
+                f.close()
+                rf = st.open_file("bits")
+                rf.seek(npre)
+                back = BitSet.from_disk(rf, count)
+                od = OnDiskBitSet(st.open_file("bits"), npre, count)
+                members = [v for v in od]
+                same = (fl(back.bits) == fl(x.bits) and len(od) == len(x) and od.first() == x.first()
+                        and od.last() == x.last() and bool(od) == bool(x))
+                obs.append((fl(back.bits) if same else "ondisk-differs", fl(members), kind, info))
+            elif name == "cp":
+                _, dst, a = op
+                kind = reg_kind(regs[a])
+                res = regs[a].copy()
+                regs[dst] = res
+                fresh[dst] = fresh[a]
+                obs.append((_raw(res), fl([v for v in res]), kind, info))
+            elif name == "load":
+                _, dst, reg = op
+                res = mk_reg(reg)
+                kind = reg_kind(res)
+                regs[dst] = res
+                fresh[dst] = True
+                obs.append((_raw(res), fl([v for v in res]), kind, info))
+            else:
+                raise AssertionError(name)
+        except Exception as e:  # noqa
+            x = _exc(e)
+            obs.append((x, x, kind or "bitset", info))
+    return dict(case=case, init_exc=None, obs=obs)
+
+
+def _operand_facts(x, y, yfresh):
+    """measured, for the statistics and the non-triviality rule (byte lengths are part of the raw
+    state the correspondence stream compares anyway)"""
+    info = {"fedback": not yfresh}
+    if hasattr(x, "bits") and hasattr(y, "bits"):
+        lx, ly = len(x.bits), len(y.bits)
+        info["bb"] = True
+        info["rzero"] = ly == 0
+        info["lzero"] = lx == 0
+        info["mismatch"] = lx != ly
+        info["rzero-left-nonempty"] = ly == 0 and any(x.bits)
+    return info
+
+
+def _pool_op_text(op, spec=False):
+    name = op[0]
+    if name == "bin":
+        return "(bin %s %d %d %d)" % (op[1], op[2], op[3], op[4])
+    if name == "upd":
+        return "(upd %s %d %d)" % (op[1], op[2], op[3])
+    if name == "on":
+        return "(on %d %s)" % (op[1], sexp(op[2]))
+    if name == "inv":
+        return "(inv %d %d %d)" % (op[1], op[2], op[3])
+    if name == "disk":
+        return "(disk %d %d)" % (op[1], op[2])
+    if name == "cp":
+        return "(cp %d %d)" % (op[1], op[2])
+    if name == "load":
+        return "(load %d %s)" % (op[1], fl(reg_members(op[2])) if spec else _reg_text(op[2]))
+    raise AssertionError(name)
+
+
+def _reg_text(reg):
+    if reg[0] == "bits":
+        return "(bits %s)" % (reg[1] or "-")
+    if reg[0] == "src":
+        return "(src %s %d %d)" % (fl(reg[1]), int(bool(reg[2])), reg[3])
+    return "(sorted %s)" % fl(reg[1])
+
+
+def pool_model_line(case):
+    return "c20 idset pool (%s) %s" % (" ".join(_reg_text(r) for r in case["regs"]),
+                                       " ".join(_pool_op_text(op) for op in case["ops"]))
+
+
+def pool_spec_line(case):
+    return "c20 idset spool (%s) %s" % (" ".join(fl(reg_members(r)) for r in case["regs"]),
+                                        " ".join(_pool_op_text(op, spec=True) for op in case["ops"]))
+
+
+def pool_pyset(case):
+    """the same program on Python sets (sanity check of the Lean pool specification)"""
+    regs = [set(reg_members(r)) for r in case["regs"]]
+    out = []
+    for op in case["ops"]:
+        name = op[0]
+        if name in ("bin", "upd"):
+            if name == "bin":
+                _, o, dst, a, b = op[:5]
+            else:
+                _, o, a, b = op
+                dst = a
+            x, y = regs[a], regs[b]
+            regs[dst] = {"union": x | y, "inter": x & y, "diff": x - y}[o]
+            out.append(fl(sorted(regs[dst])))
+        elif name == "on":
+            a = op[1]
+            sub = dict(kind="sorted", init=sorted(regs[a]))
+            out.append(pyset_transcript(sub, [op[2]])[0])
+            n = op[2][0]
+            if n == "add":
+                regs[a] = regs[a] | {op[2][1]}
+            elif n == "discard":
+                regs[a] = regs[a] - {op[2][1]}
+            elif n == "clear":
+                regs[a] = set()
+            elif n == "invupd":
+                regs[a] = set(range(op[2][1])) - regs[a]
+        elif name == "inv":
+            regs[op[1]] = set(range(op[3])) - regs[op[2]]
+            out.append(fl(sorted(regs[op[1]])))
+        elif name == "disk":
+            out.append(fl(sorted(regs[op[1]])))
+        elif name == "cp":
+            regs[op[1]] = set(regs[op[2]])
+            out.append(fl(sorted(regs[op[1]])))
+        elif name == "load":
+            regs[op[1]] = set(reg_members(op[2]))
+            out.append(fl(sorted(regs[op[1]])))
+    return out
+
+
+def _pool_meth(op):
+    name = op[0]
+    if name == "bin":
+        return (op[1], None)
+    if name == "upd":
+        return ({"union": "update", "inter": "iupd", "diff": "dupd"}[op[1]], None)
+    if name == "on":
+        return op[2]
+    if name == "inv":
+        return ("invert", op[3])
+    if name == "cp":
+        return ("copy",)
+    if name == "disk":
+        return ("to_disk/OnDiskBitSet",)
+    return ("load",)
+
+
+def check_pool_cases(ctx, cases, parallel=False):
+    results = ctx.pmap(run_pool_case, cases, chunksize=64) if parallel else [run_pool_case(c) for c in cases]
+    ok = []
+    for r in results:
+        if r["init_exc"] is not None:
+            ctx.violation("BitSet/SortedIntSet.__init__:raises-%s" % r["init_exc"][4:],
+                          {"case": r["case"], "op": None}, "constructed", r["init_exc"], "constructor raised")
+        else:
+            ok.append(r)
+    mouts = ctx.driver.ask([pool_model_line(r["case"]) for r in ok])
+    souts = ctx.driver.ask([pool_spec_line(r["case"]) for r in ok])
+    for r, mo, so in zip(ok, mouts, souts):
+        case = r["case"]
+        if mo == "bad-op" or so == "bad-op":
+            raise RuntimeError("driver rejected %r" % (pool_model_line(case),))
+        mobs = [flat(x) for x in parse_sexp(mo)[0]]
+        sobs = [flat(x) for x in parse_sexp(so)[0]]
+        pobs = pool_pyset(case)
+        if sobs != pobs:
+            ctx.divergence("Spec.IdSet.SPool-vs-python-set", case, sobs, pobs)
+        fedback = answered = False
+        for op, (raw, setlv, kind, info), m, s in zip(case["ops"], r["obs"], mobs, sobs):
+            mop = _pool_meth(op)
+            ctx.stat("pool-op:%s.%s" % (kind, op[0] if op[0] != "on" else "on-" + mop[0]))
+            if op[0] == "bin":
+                ctx.stat("pool-bin-form:%s" % ("operator" if op[5] == "o" else "method"))
+            if info.get("bb"):
+                ctx.stat("pool-bitset-bitset:%s" % op[1])
+                for k in ("rzero", "lzero", "mismatch", "fedback", "rzero-left-nonempty"):
+                    if info.get(k):
+                        ctx.stat("pool-bitset-bitset:%s:%s" % (op[1], k))
+            if info.get("fedback") and s != "()":
+                fedback = True
+            if raw.startswith("err-"):
+                ctx.stat("pool-err:%s.%s:%s" % (kind, mop[0], raw))
+            if raw != m:
+                ctx.divergence("idsets.%s.%s" % (CLS[kind], METH.get(mop[0], mop[0])),
+                               {"case": case, "op": op}, m, raw)
+            if setlv != s:
+                ctx.violation(classify({"kind": kind}, mop, s, setlv), {"case": case, "op": op}, s, setlv,
+                              "%s.%s disagrees with the set operation (pool program)"
+                              % (CLS[kind], METH.get(mop[0], mop[0])))
+                break   # implementation and specification are in different states from here on
+            if s not in ("()", "none", "0"):
+                answered = True
+        ctx.case(("idset-pool", sexp(case["regs"]), sexp(case["ops"])), nontrivial=fedback and answered)
+    if ok:
+        ctx.sample({"idset-pool-program": pool_model_line(ok[0]["case"]), "model": mouts[0], "spec": souts[0]})
+
+
 def _tuplify(x):
     return tuple(_tuplify(y) for y in x) if isinstance(x, list) else x
 
@@ -536,6 +856,10 @@ def replay_case(ctx, stored):
     """`stored` = the `case` field of a replay record: {"case": program, "op": failing op}"""
     case = dict(stored["case"])
     case["ops"] = [_tuplify(op) for op in case["ops"]]
+    if case["kind"] == "pool":
+        case["regs"] = [_tuplify(r) for r in case["regs"]]
+        check_pool_cases(ctx, [case])
+        return
     case["init"] = _tuplify(case["init"])
     check_cases(ctx, [case])
 
@@ -544,3 +868,6 @@ def run(ctx):
     n = ctx.budget(12000, 150000)
     cases = gen_cases(ctx, n)
     check_cases(ctx, cases, parallel=n > 20000)
+    npool = ctx.budget(5000, 60000)
+    prng = ctx.rng("idsets-pool")
+    check_pool_cases(ctx, [gen_pool_case(prng) for _ in range(npool)], parallel=npool > 20000)
